@@ -153,10 +153,11 @@ CLAIMED['C20'] = {
 }
 
 CLAIMED['C15'] = {
-    'category': 'other',
-    'text': 'Level other because two obligations (one crash point) are refuted on the unchanged tree and recorded as a known finding (torn settings key line); every other obligation is discharged deductively: every effect boundary (crash point, with torn writes) and every single-OSError exit of the real _migrate_csv_to_rules and migrate_v0_to_v1 is enumerated by '
+    'category': 'proof',
+    'text': 'Every effect boundary (crash point, with torn writes) and every single-OSError exit of the real _migrate_csv_to_rules and migrate_v0_to_v1 is enumerated by '
             'symbolic execution over a ghost file system and checked: no user content lost; the budget classifies with the user\'s rules now or after re-running; never an empty '
-            'rule set while the rules are on disk. effective_rules(fs) is the selection function proved for load_config (C11). One recorded known finding (torn settings key line). '
+            'rule set while the rules are on disk. effective_rules(fs) is the selection function proved for load_config (C11). Start states include budgets that already have target files (a hand-written merchants.rules, an older .bak, a ./tally/ with sub-directories), settings texts that only mention the key, '
+            'and the settings update goes through a temporary file and an atomic rename (the torn key line that used to be a recorded finding is repaired). '
             'Fault injection on real directories is the labelled bounded oracle.',
     'level_note': _BASE_NOTE + ' File-system model A9: atomic rename, any prefix of a write may persist, single crash or single fault, paths are atoms; conversion fidelity is C14.',
     'technique': 'contract-based deductive verification over a ghost file system (obligation at every effect boundary of the real functions) + bounded fault-injection oracle on real directories',
@@ -183,11 +184,11 @@ CLAIMED['C14'] = {
 }
 
 CLAIMED['C12'] = {
-    'category': 'other',
-    'text': 'Level other because one obligation is refuted on the unchanged tree and recorded as a known finding (JSON summary); every other obligation is discharged deductively: make_merchant_id proved against a representation invariant of the state shared by all calls of one report (every recorded id is in used_ids, different names have different ids): one call from any such state returns the recorded id of a known name unchanged, or an unused id that is then recorded, and preserves the invariant - so ids are injective and stable for any number of merchants (while loop cut at its invariant, no bound); definite-assignment clause '
+    'category': 'proof',
+    'text': 'make_merchant_id proved against a representation invariant of the state shared by all calls of one report (every recorded id is in used_ids, different names have different ids): one call from any such state returns the recorded id of a known name unchanged, or an unused id that is then recorded, and preserves the invariant - so ids are injective and stable for any number of merchants (while loop cut at its invariant, no bound); definite-assignment clause '
             '(every name read in a renderer is bound), figure data-flow clauses (each renderer shows the analysed stats fields) and embedding clauses (escaping replaces present, data substituted last, '
             'transaction ids indexed) decided syntactically over the real AST. The replace_all string obligation is beyond both solvers; it, the html.parser+json round trip and the category sums are '
-            'exercised by the labelled bounded oracle. One recorded known finding (JSON summary recomputes figures).',
+            'exercised by the labelled bounded oracle. make_section_id (view ids) is proved injective the same way; the JSON summary copies the analysed figures (the former recorded finding is repaired).',
     'level_note': _BASE_NOTE + ' HTML and JSON parsers outside the verified text (A10); definite assignment is flow-insensitive.',
     'technique': 'contract-based deductive verification (symbolic execution of make_merchant_id + z3; syntactic definite-assignment / data-flow / embedding clauses) + bounded decode round-trip oracle',
 }
